@@ -142,6 +142,32 @@ func VP_C19_roundtrip_any_strings() {
 }
 
 //vp:property C19
+//vp:bounds "non-ASCII text": a map with ONE string setting whose name and value are an ASCII letter with one of these in front and/or behind: nothing, "é", a byte order mark (U+FEFF), a no-break space (U+00A0), an em space (U+2003); the name therefore comes first in the file
+//vp:assume a map the line format cannot carry may be refused by Marshal with an error; what Marshal does accept must read back as the same map
+//vp:reach roundtrip refused
+func VP_C19_roundtrip_non_ascii() {
+	affix := []string{"", "\xc3\xa9", "\xef\xbb\xbf", "\xc2\xa0", "\xe2\x80\x83"}
+	k := affix[vpIntRange("name-prefix", 0, 4)] + "k" + affix[vpIntRange("name-suffix", 0, 4)]
+	v := affix[vpIntRange("value-prefix", 0, 4)] + "v" + affix[vpIntRange("value-suffix", 0, 4)]
+	m := map[string]interface{}{k: v}
+	p := Parser()
+	text, err := p.Marshal(m)
+	vpObserveBool("marshalled", err == nil)
+	if err != nil {
+		vpReach("refused")
+		return
+	}
+	back, err := p.Unmarshal(text)
+	vpAssert(err == nil, "own-output-is-accepted-by-the-reader")
+	if err != nil {
+		return
+	}
+	vpReach("roundtrip")
+	got, ok := back[k].(string)
+	vpAssert(len(back) == 1 && ok && got == v, "what-marshal-accepts-reads-back-as-the-same-map")
+}
+
+//vp:property C19
 //vp:set n 5 7
 //vp:set budget 120 900
 //vp:bounds one arbitrary ASCII line of 0..n bytes without CR/LF offered to the reader
